@@ -77,7 +77,9 @@ Record ghost := mkG {
   ps_out : N;         (* post_stop left (returned or cancelled) *)
   n_term : N;         (* terminate() calls: children signalled and detached *)
   n_sup : N;          (* terminal supervision events enqueued *)
-  n_unlink : N        (* unlink from supervisor *)
+  n_unlink : N;       (* unlink from supervisor *)
+  kids : list (stat * bool)  (* children linked at exit time: status when the parent exits,
+                                and whether terminate() has sent them the kill signal *)
 }.
 
 Record st := mkSt {
@@ -152,19 +154,27 @@ Definition at_sub (t : athread) (x : sub) : athread := mkT (a_prog t) x (a_hist 
 Definition mem_gate (g : N) (l : list N) : bool := existsb (N.eqb g) l.
 
 Definition gh_pid (g : ghost) : ghost :=
-  mkG (name_reg g) false (pg_reg g) (cleanups g) (ps_in g) (ps_out g) (n_term g) (n_sup g) (n_unlink g).
+  mkG (name_reg g) false (pg_reg g) (cleanups g) (ps_in g) (ps_out g) (n_term g) (n_sup g) (n_unlink g) (kids g).
 Definition gh_name (g : ghost) : ghost :=
-  mkG false (pid_reg g) (pg_reg g) (cleanups g + 1) (ps_in g) (ps_out g) (n_term g) (n_sup g) (n_unlink g).
+  mkG false (pid_reg g) (pg_reg g) (cleanups g + 1) (ps_in g) (ps_out g) (n_term g) (n_sup g) (n_unlink g) (kids g).
 Definition gh_pg (g : ghost) : ghost :=
-  mkG (name_reg g) (pid_reg g) false (cleanups g) (ps_in g) (ps_out g) (n_term g) (n_sup g) (n_unlink g).
+  mkG (name_reg g) (pid_reg g) false (cleanups g) (ps_in g) (ps_out g) (n_term g) (n_sup g) (n_unlink g) (kids g).
+Definition signal_kid (k : stat * bool) : stat * bool := (fst k, snd k || (rank (fst k) <? 5)).
+(* signalled, or on its own way out *)
+Definition kid_ok (k : stat * bool) : bool := snd k || (5 <=? rank (fst k)).
+
 Definition gh_instr (i : instr) (g : ghost) : ghost :=
   match i with
-  | IPsEnter => mkG (name_reg g) (pid_reg g) (pg_reg g) (cleanups g) (ps_in g + 1) (ps_out g) (n_term g) (n_sup g) (n_unlink g)
+  | IPsEnter => mkG (name_reg g) (pid_reg g) (pg_reg g) (cleanups g) (ps_in g + 1) (ps_out g) (n_term g) (n_sup g) (n_unlink g) (kids g)
   | IPsExit | IPsCancel =>
-      mkG (name_reg g) (pid_reg g) (pg_reg g) (cleanups g) (ps_in g) (ps_out g + 1) (n_term g) (n_sup g) (n_unlink g)
-  | ITerminate => mkG (name_reg g) (pid_reg g) (pg_reg g) (cleanups g) (ps_in g) (ps_out g) (n_term g + 1) (n_sup g) (n_unlink g)
-  | INotifySup => mkG (name_reg g) (pid_reg g) (pg_reg g) (cleanups g) (ps_in g) (ps_out g) (n_term g) (n_sup g + 1) (n_unlink g)
-  | IUnlink => mkG (name_reg g) (pid_reg g) (pg_reg g) (cleanups g) (ps_in g) (ps_out g) (n_term g) (n_sup g) (n_unlink g + 1)
+      mkG (name_reg g) (pid_reg g) (pg_reg g) (cleanups g) (ps_in g) (ps_out g + 1) (n_term g) (n_sup g) (n_unlink g) (kids g)
+  | ITerminate =>
+      (* ActorCell::terminate: every child that is not yet Stopping/Stopped (Draining included) is
+         sent the kill signal; all are detached *)
+      mkG (name_reg g) (pid_reg g) (pg_reg g) (cleanups g) (ps_in g) (ps_out g) (n_term g + 1) (n_sup g) (n_unlink g)
+          (map signal_kid (kids g))
+  | INotifySup => mkG (name_reg g) (pid_reg g) (pg_reg g) (cleanups g) (ps_in g) (ps_out g) (n_term g) (n_sup g + 1) (n_unlink g) (kids g)
+  | IUnlink => mkG (name_reg g) (pid_reg g) (pg_reg g) (cleanups g) (ps_in g) (ps_out g) (n_term g) (n_sup g) (n_unlink g + 1) (kids g)
   | ISet _ | IGate _ => g
   end.
 
@@ -250,12 +260,19 @@ Definition step (s : st) (l : label) : st :=
 Definition run (ls : list label) (s : st) : st := fold_left step ls s.
 
 (* ---------- initial states ---------- *)
-Definition gh0 : ghost := mkG true true true 0 0 0 0 0 0.
+Definition gh0 : ghost := mkG true true true 0 0 0 0 0 0 [].
 
 Definition init_thread (p : list instr) : athread := mkT p SIdle [].
 
+Definition gh0k (ks : list stat) : ghost :=
+  mkG true true true 0 0 0 0 0 0 (map (fun x => (x, false)) ks).
+
+(* `ks`: the statuses of the children linked to the actor when it exits *)
+Definition mk_init_k (s0 : stat) (ws : list wpc) (progs : list (list instr)) (ks : list stat) : st :=
+  mkSt s0 0 false [] ws (map init_thread progs) [] (gh0k ks).
+
 Definition mk_init (s0 : stat) (ws : list wpc) (progs : list (list instr)) : st :=
-  mkSt s0 0 false [] ws (map init_thread progs) [] gh0.
+  mk_init_k s0 ws progs [].
 
 Definition wpc_initial (p : wpc) : bool := match p with W0 | WJoin => true | _ => false end.
 
@@ -313,14 +330,15 @@ Record snap := mkSnap {
   sn_pg : bool;         (* still a member of its process group *)
   sn_ps_active : bool;  (* post_stop entered and not yet left *)
   sn_ps_done : bool;    (* post_stop left at least once *)
-  sn_children : bool;   (* terminate() has run: children signalled and detached *)
+  sn_children : bool;   (* terminate() has run: every child is detached and has been sent the kill
+                           signal unless it was already Stopping/Stopped *)
   sn_sup : bool;        (* the supervisor has been sent the terminal event *)
 }.
 
 Definition snapshot (s : st) : snap :=
   let g := gh s in
   mkSnap (status s) (name_reg g) (pid_reg g) (pg_reg g)
-         (negb (ps_in g =? ps_out g)) (0 <? ps_out g) (0 <? n_term g) (0 <? n_sup g).
+         (negb (ps_in g =? ps_out g)) (0 <? ps_out g) ((0 <? n_term g) && forallb kid_ok (kids g)) (0 <? n_sup g).
 
 (* expectations that depend on the scenario: was post_stop entered by the exit
    (want_ps), is there a supervisor that must have been told (want_sup) *)
@@ -454,26 +472,29 @@ Fixpoint mono_stats (prev : N) (l : list stat) : bool :=
   end.
 
 (* a scenario of the E1 engine *)
+Definition scenario_init_k (s0 : stat) (ws : list wpc) (c : cause) (sup : bool) (ks : list stat) : st :=
+  mk_init_k s0 ws [exit_prog c sup] ks.
+
 Definition scenario_init (s0 : stat) (ws : list wpc) (c : cause) (sup : bool) : st :=
-  mk_init s0 ws [exit_prog c sup].
+  scenario_init_k s0 ws c sup [].
 
-Definition run_scenario (s0 : stat) (ws : list wpc) (c : cause) (sup : bool) (ops : list op) : list obs :=
-  observe (sched ops) (scenario_init s0 ws c sup).
+Definition run_scenario (s0 : stat) (ws : list wpc) (c : cause) (sup : bool) (ks : list stat) (ops : list op) : list obs :=
+  observe (sched ops) (scenario_init_k s0 ws c sup ks).
 
-Definition scenario_statuses (s0 : stat) (ws : list wpc) (c : cause) (sup : bool) (ops : list op) : list stat :=
-  statuses_go [] [] ops (scenario_init s0 ws c sup).
+Definition scenario_statuses (s0 : stat) (ws : list wpc) (c : cause) (sup : bool) (ks : list stat) (ops : list op) : list stat :=
+  statuses_go [] [] ops (scenario_init_k s0 ws c sup ks).
 
 (* executions of the cleanup block (observed by the harness as the number of process-group
    Leave notifications for the actor) and what the property says about that number: never
    twice, and once by the time the actor is Stopped.  (That the code runs it already at
    Stopping is part of the model and of the compared view, not of the oracle.) *)
-Definition scenario_cleanups (s0 : stat) (ws : list wpc) (c : cause) (sup : bool) (ops : list op) : N :=
-  cleanups (gh (run (sched ops) (scenario_init s0 ws c sup))).
+Definition scenario_cleanups (s0 : stat) (ws : list wpc) (c : cause) (sup : bool) (ks : list stat) (ops : list op) : N :=
+  cleanups (gh (run (sched ops) (scenario_init_k s0 ws c sup ks))).
 
 Definition check_cleanup (n : N) (final : stat) : bool :=
   (n <=? 1) && (if rank final =? 6 then n =? 1 else true).
 
 (* was the schedule maximal: the actor task has finished and the status is Stopped *)
-Definition scenario_complete (s0 : stat) (ws : list wpc) (c : cause) (sup : bool) (ops : list op) : bool :=
-  let s := run (sched ops) (scenario_init s0 ws c sup) in
+Definition scenario_complete (s0 : stat) (ws : list wpc) (c : cause) (sup : bool) (ks : list stat) (ops : list op) : bool :=
+  let s := run (sched ops) (scenario_init_k s0 ws c sup ks) in
   threads_done s && stat_eqb (status s) Stopped.
